@@ -59,6 +59,10 @@ Record site := mkSite {
   s_same_recv : bool;       (* accessed object is the context's receiver: its entry locks apply *)
   s_pre : prepub;
   s_ord : nat;
+  s_conds : list string;    (* conditions lexically known at the site: path conditions of enclosing ifs and
+                               early exits (observed under the current lock state), and history facts
+                               "set:$.f" (this goroutine executed `$.f = true` before); "$" = the receiver *)
+  s_note : string;          (* method name of a Use; "=true"/"=false" for a constant write *)
   s_dbg : string            (* file:line - never inspected *)
 }.
 
@@ -183,14 +187,25 @@ Fixpoint check_prog (ann : site -> lockset) (h : lockset) (p : list op) : bool :
 
 (* ------------------------------------------------------------------ (3) policies *)
 
+(* one side of an ordered pair: the function context, conditions its site must carry, locks it must hold *)
+Record hbpair := mkHB {
+  hb_f : string; hb_g : string;
+  hb_cf : list string; hb_cg : list string;
+  hb_lf : lockset; hb_lg : lockset
+}.
+Definition HB (f g : string) : hbpair := mkHB f g [] [] [] [].
+
 Inductive fpolicy :=
 | GuardedBy (l : string)          (* every shared access holds l; writers exclusively *)
+| GuardedMono (l : string)        (* GuardedBy l, and every shared write assigns the constant true
+                                     (a latch: once set it stays set) *)
 | SyncTyped                       (* a sync/atomic value: only used through its methods, never re-assigned *)
 | CtorOnly                        (* written only in constructors/options, read-only afterwards *)
 | Immutable                       (* written only while the object is fresh/private *)
-| HBVia (name : string) (pairs : list (string * string)).
+| HBVia (name : string) (pairs : list hbpair).
                                   (* conflicting accesses either share a lock or are one of the listed
-                                     (function, function) pairs, ordered by the named protocol *)
+                                     pairs (function contexts, with the conditions and locks each side must
+                                     carry), ordered by the named protocol *)
 
 Definition policy := list ((string * string) * fpolicy).
 Definition fkey := (string * string)%type.
@@ -210,9 +225,16 @@ Definition site_key (s : site) : fkey := (s_struct s, s_field s).
 Definition common_lock (a b : lockset) : bool :=
   existsb (fun p => (is_ex (snd p) && holds_any b (fst p)) || holds_ex b (fst p)) a.
 
-Definition pair_listed (pairs : list (string * string)) (f g : string) : bool :=
-  existsb (fun p => (String.eqb (fst p) f && String.eqb (snd p) g) ||
-                    (String.eqb (fst p) g && String.eqb (snd p) f)) pairs.
+Definition has_all (need have : list string) : bool :=
+  forallb (fun c => existsb (String.eqb c) have) need.
+
+Definition side_ok (tbl : access_table) (f : string) (cs : list string) (ls : lockset) (s : site) : bool :=
+  String.eqb f (s_func s) && has_all cs (s_conds s) && covers (eff_locks tbl s) ls.
+
+Definition pair_listed (tbl : access_table) (pairs : list hbpair) (a b : site) : bool :=
+  existsb (fun p =>
+    (side_ok tbl (hb_f p) (hb_cf p) (hb_lf p) a && side_ok tbl (hb_g p) (hb_cg p) (hb_lg p) b) ||
+    (side_ok tbl (hb_f p) (hb_cf p) (hb_lf p) b && side_ok tbl (hb_g p) (hb_cg p) (hb_lg p) a)) pairs.
 
 (* per-site obligation; None = fine, Some why = violated *)
 Definition site_check (tbl : access_table) (pol : fpolicy) (s : site) : option string :=
@@ -228,6 +250,12 @@ Definition site_check (tbl : access_table) (pol : fpolicy) (s : site) : option s
                          else Some ("write without holding " +++ l +++ " exclusively")
     | GuardedBy l, _ => if covers (eff_locks tbl s) [(l, Sh)] then None
                         else Some ("access without holding " +++ l)
+    | GuardedMono l, Wr => if covers (eff_locks tbl s) [(l, Ex)]
+                           then if String.eqb (s_note s) "=true" then None
+                                else Some "latch field assigned something other than the constant true"
+                           else Some ("write without holding " +++ l +++ " exclusively")
+    | GuardedMono l, _ => if covers (eff_locks tbl s) [(l, Sh)] then None
+                          else Some ("access without holding " +++ l)
     | SyncTyped, Use => None
     | SyncTyped, Wr => Some "sync-typed field re-assigned after construction"
     | SyncTyped, Rd => Some "sync-typed field copied/read as a plain value"
@@ -243,6 +271,7 @@ Definition cat_check (pol : fpolicy) (c : tycat) : option string :=
   | SyncTyped, TSync => None
   | SyncTyped, _ => Some "SyncTyped policy on a field that is not a sync/atomic value"
   | GuardedBy _, _ => None
+  | GuardedMono _, _ => None
   | _, TSync => Some "sync/atomic value needs policy SyncTyped or GuardedBy"
   | _, _ => None
   end.
@@ -286,9 +315,9 @@ Definition pair_failures (pol : policy) (exc : list fkey) (tbl : access_table) :
       flat_map (fun b =>
         if conflict a b && is_wr a
            && negb (common_lock (eff_locks tbl a) (eff_locks tbl b))
-           && negb (pair_listed pairs (s_func a) (s_func b))
+           && negb (pair_listed tbl pairs a b)
         then [line "pair" (s_struct a) (s_field a) (s_func a +++ "/" +++ s_func b) (kind_name (s_kind b))
-                   "conflicting accesses share no lock and the pair is not listed in the HBVia policy"
+                   "conflicting accesses share no lock and match no listed HBVia pair (functions, conditions, locks)"
                    (s_dbg a +++ "," +++ s_dbg b)]
         else []) (t_sites tbl)
     | _ => []
@@ -328,10 +357,10 @@ Definition table_ok (pol : policy) (exc : list fkey) (tbl : access_table) : bool
   is_nil (failures pol exc tbl).
 
 (* which conflicting pairs the theorem does NOT exclude: excepted fields and listed HBVia pairs *)
-Definition excused (pol : policy) (exc : list fkey) (a b : site) : bool :=
+Definition excused (pol : policy) (exc : list fkey) (tbl : access_table) (a b : site) : bool :=
   in_keys exc (site_key a) ||
   match lookup pol (site_key a) with
-  | Some (HBVia _ pairs) => pair_listed pairs (s_func a) (s_func b)
+  | Some (HBVia _ pairs) => pair_listed tbl pairs a b
   | _ => false
   end.
 
